@@ -355,7 +355,7 @@ COMMENTS = ["# a comment", "### another : comment = with + symbols", "#", "# seq
 def render(stmts, rng, style="free"):
     """PIL text for the statement list.  style "free": random blanks/tabs around `=`, `:`, `+`, inside structures,
     comment lines, trailing comments, blank lines, optional ` : length` suffixes; "emitted": the compiler's spelling.
-    Every line is newline-terminated."""
+    Every line is newline-terminated, except that a free-style document sometimes lacks the final line end."""
     free = style == "free"
     lens = {}
     slens = {}
@@ -415,7 +415,11 @@ def render(stmts, rng, style="free"):
         lines.append(lead + ln)
     if free and rng.random() < 0.3:
         lines.append(rng.choice(COMMENTS))
-    return "".join(l + "\n" for l in lines)
+    text = "".join(l + "\n" for l in lines)
+    if free and lines and "#" not in lines[-1] and lines[-1].strip() and rng.random() < 0.12:
+        text = text[:-1]        # a hand-written file whose last line has no line end (a statement, not a comment: the reader is known not
+                                # to strip a comment on an unterminated last line, DESIGN 0.7)
+    return text
 
 
 # ------------------------------------------------------------------------------------------------ generator
